@@ -3284,6 +3284,11 @@ class BatchDataset(Dataset):
                 except IndexError:
                     if i == 0 or self.drop_last:
                         raise
+                    elif input_index + i < len(self.input_dataset):
+                        # Not the end of the input dataset: The IndexError
+                        # comes from the pipeline (e.g. a map function) and
+                        # must not be swallowed.
+                        raise
                     else:
                         pass
             return current_batch
